@@ -23,6 +23,25 @@ def genEnv : Env :=
     foldCatch := Generated.redFoldCatch
     excTable := Generated.excTable }
 
+/-- the environment the PROPERTY is stated in: the documented behaviour, hard-coded (the
+    values `WF` demands of the extracted facts).  The correspondence driver evaluates the
+    checker with this environment on the implementation's observation, so a change of
+    /repo that alters one of these facts yields a concrete failing input, not only a
+    failing facts obligation. -/
+def specEnv : Env :=
+  { ct := userClasses ++ [("object", ["object"]), ("dict", ["dict", "object"]),
+      ("OrderedDict", ["OrderedDict", "dict", "object"]), ("list", ["list", "object"]),
+      ("tuple", ["tuple", "object"]), ("str", ["str", "object"]), ("int", ["int", "object"]),
+      ("bool", ["bool", "int", "object"]), ("NoneType", ["NoneType", "object"])]
+    iterReg := [("object", "False"), ("dict", "iter"), ("list", "iter"), ("tuple", "iter"),
+      ("OrderedDict", "iter"), ("_AbstractIterable", "iter")]
+    absIterExcluded := ["str", "bytes"]
+    foldCatch := [("UnregisteredTarget", "FoldError")]
+    excTable := [("FoldError", ["FoldError", "GlomError", "Exception", "BaseException", "object"]),
+      ("PathAccessError", ["PathAccessError", "GlomError", "AttributeError", "KeyError", "IndexError",
+        "LookupError", "Exception", "BaseException", "object"]),
+      ("UnregisteredTarget", ["UnregisteredTarget", "GlomError", "Exception", "BaseException", "object"])] }
+
 def genSrc : SrcFacts :=
   { initCalls := Generated.redInitCalls
     defaults := Generated.redDefaults ++ Generated.redFnDefaults
